@@ -867,7 +867,9 @@ def probe_fx(srv):
 def _family(script, i, what, l, r, before=None):
     """classify a failing step by the concrete operation, the difference and the state before the step"""
     op = script[i]
-    ghost_tip = bool(before) and before["tip"][1] != "null:" and before["tip"][1] not in before["revs"]
+    # the tip names a revision that is not stored (or null: with a non-zero revno): set_last_revision_info
+    # does not check, and reads on such a state differ in results / error classes
+    ghost_tip = bool(before) and before["tip"] != [0, "null:"] and before["tip"][1] not in before["revs"]
     if (op[0] in ("parent_map", "m_parent_map") and what == "result" and isinstance(l, dict) and isinstance(r, dict)
             and "null:" in op[1]
             and "null:" in l and "null:" not in r and {k: v for k, v in l.items() if k != "null:"} == r):
